@@ -64,6 +64,7 @@ func newGroupItem(hookName, colKey, objID string) *groupItem {
 
 func (s *Server) groupConnect(hookName, colKey, objID string) (groupID string) {
 	g := newGroupItem(hookName, colKey, objID)
+	verifPoint(s, "groups.mutate", "connect", hookName)
 	s.groupHooks.Set(g)
 	s.groupObjects.Set(g)
 	return g.groupID
@@ -75,6 +76,7 @@ func (s *Server) groupDisconnect(hookName, colKey, objID string) {
 		colKey:   colKey,
 		objID:    objID,
 	}
+	verifPoint(s, "groups.mutate", "disconnect", hookName)
 	s.groupHooks.Delete(g)
 	s.groupObjects.Delete(g)
 }
